@@ -1004,6 +1004,10 @@ func processInterfaceValue(fset *token.FileSet, info *types.Info, call *ast.Call
 		return nil, notePosition(fset.Position(call.Pos()), fmt.Errorf("first argument to InterfaceValue must be a pointer to an interface type; found %s", types.TypeString(ifaceArgType, nil)))
 	}
 	provided := info.TypeOf(call.Args[1])
+	if b, ok := provided.(*types.Basic); ok && b.Kind() == types.UntypedNil {
+		// An untyped nil has no type to declare the value variable with.
+		return nil, notePosition(fset.Position(call.Args[1].Pos()), fmt.Errorf("second argument to InterfaceValue may not be an untyped nil; convert it to %s", types.TypeString(iface, nil)))
+	}
 	if !types.Implements(provided, methodSet) {
 		return nil, notePosition(fset.Position(call.Pos()), fmt.Errorf("%s does not implement %s", types.TypeString(provided, nil), types.TypeString(iface, nil)))
 	}
